@@ -176,7 +176,10 @@ def step (line : String) : String :=
         let rs := (RoundRobin.fresh chunk).runVar (ns.map iota)
         -- the property: every answer is one of the partitions offered to THAT call (and nothing panics)
         let holds := match parseInts impl with
-          | some xs => xs.length == ns.length && (xs.zip ns).all (fun (x, n) => 0 ≤ x && x < (n : Int))
+          | some xs => xs.length == ns.length &&
+              -- one of the partitions offered to THAT call, and the one the global call number designates (a balancer
+              -- shared by lists of different lengths keeps moving over all partitions of each)
+              ((xs.zip ns).zipIdx.all fun ((x, n), j) => 0 ≤ x && x < (n : Int) && x == Int.ofNat ((j / (if chunk < 1 then 1 else chunk.toNat)) % n))
           | none => false
         answer (showList rs) holds
       | _, _ => "bad-op"
